@@ -44,7 +44,9 @@ def axioms(comps, normalized):
     ax += [KC(0) == 0, z3.ForAll([r], z3.Implies(r >= 0, KC(r + 1) == KC(r) + z3.If(keep(r), 1, 0)), patterns=[KC(r + 1)]),
            z3.ForAll([r], z3.Implies(r >= 0, z3.And(KC(r) >= 0, KC(r) <= r)), patterns=[KC(r)]),
            # monotone: consequence of the unfolding by induction (step lemma below; A-INDUCTION)
-           z3.ForAll([r, q], z3.Implies(z3.And(0 <= r, r <= q), KC(r) <= KC(q)), patterns=[z3.MultiPattern(KC(r), KC(q))])]
+           z3.ForAll([r, q], z3.Implies(z3.And(0 <= r, r <= q), KC(r) <= KC(q)), patterns=[z3.MultiPattern(KC(r), KC(q))]),
+           # strict at a kept record (base: unfolding at r; step: monotone) - stated with the trigger the subsequence invariant needs
+           z3.ForAll([r, q], z3.Implies(z3.And(0 <= r, r < q, keep(r)), KC(r) < KC(q)), patterns=[z3.MultiPattern(KC(r), KC(q))])]
     if normalized:
         ax += [z3.ForAll([q], z3.Implies(z3.And(q >= 0, q < L), MX(q) <= GM), patterns=[MX(q)]), z3.Exists([q], z3.And(q >= 0, q < L, MX(q) == GM)), GM > 0]
     return ax, keep
@@ -119,6 +121,8 @@ from pyvc.contract import LemmaTask
 _r, _q = z3.Ints("r q")
 _kp = z3.Bool("keep_q")
 TASKS += [LemmaTask("kept-count-monotone[step]", [_r >= 0, _q >= _r, KC(_r) <= KC(_q), KC(_q + 1) == KC(_q) + z3.If(_kp, 1, 0)], KC(_r) <= KC(_q + 1), "KC(r) <= KC(q) ==> KC(r) <= KC(q+1)"),
+          LemmaTask("kept-count-strict[base]", [_r >= 0, _kp, KC(_r + 1) == KC(_r) + z3.If(_kp, 1, 0)], KC(_r) < KC(_r + 1), "a kept record increases the count"),
+          LemmaTask("kept-count-strict[step]", [_r >= 0, _q > _r, KC(_r) < KC(_q), KC(_q) <= KC(_q + 1)], KC(_r) < KC(_q + 1), "strictness is kept by monotonicity"),
           LemmaTask("kept-count-range[step]", [_r >= 0, KC(_r) >= 0, KC(_r) <= _r, KC(_r + 1) == KC(_r) + z3.If(_kp, 1, 0)], z3.And(KC(_r + 1) >= 0, KC(_r + 1) <= _r + 1), "0 <= KC(r) <= r")]
 
 META = dict(
